@@ -1,1 +1,12 @@
+// Package refcodec is an independent implementation of the Apache Kafka wire
+// protocol used by the simulated brokers: request/response framing for the
+// APIs listed in SPEC.md (schemas transcribed from the Kafka message
+// definitions, KIP-482 flexible versions included), the legacy message-set
+// formats (magic 0 and 1) and the record-batch format (magic 2) with gzip,
+// snappy (xerial framing or raw), lz4 and zstd compression.
+//
+// It is the oracle against which github.com/segmentio/kafka-go is judged and
+// therefore must not import that module outside of _test.go files. The
+// contract is SPEC.md; the deviations of kafka-go found while cross-validating
+// are listed in DISAGREEMENTS.md.
 package refcodec
